@@ -21,6 +21,11 @@
 //!    valid prefix / suffix, through `Manifest::decode` relaxed and strict;
 //!  * source.pieces — `take_from` over an own `Source` that buffers the data
 //!    piecemeal (pieces of 1, 2, 3, 7, 16 octets; a split at every offset);
+//!  * content.ber_spellings — every TLV of a valid eContent in every BER
+//!    spelling (indefinite / non-minimal length, constructed strings), singly
+//!    and in pairs, through `take_from` in BER and DER mode;
+//!  * entries.count — lists of 0..=40 entries and around every power of two up
+//!    to 4096 (thorough: 2^20), valid and with one bad name first/middle/last;
 //!  * cms.names — the K-th subset of names.alphabet through `Manifest::decode`;
 //!  * hash.bitstring — hash lengths {0,1,31,32,33} x unused bits {0,1,7,8} x
 //!    last-octet patterns x two data values, and all 256 one-bit changes of a
@@ -1139,6 +1144,176 @@ fn source_pieces(ctx: &Ctx, fx: &Fixed) {
     sp.done(true, &format!("{} names x 3 placements x (5 piece sizes + every split offset, two and three pieces) x 2 modes", names.len()));
 }
 
+//------------ BER spellings inside the content -------------------------------------------------
+
+/// How one TLV of the eContent is written.
+#[derive(Clone, Copy, Debug, PartialEq, Eq, PartialOrd, Ord)]
+enum Sp { Indef, LongLen, Seg2, Seg3, SegIndef }
+
+impl Sp {
+    fn show(self) -> &'static str {
+        match self { Sp::Indef => "indefinite-length", Sp::LongLen => "non-minimal-length", Sp::Seg2 => "constructed-2-segments",
+                     Sp::Seg3 => "constructed-3-segments", Sp::SegIndef => "constructed-2-segments-indefinite" }
+    }
+}
+
+/// Length octets in long form with one octet more than needed.
+fn long_len(n: usize) -> Vec<u8> {
+    let mut b: Vec<u8> = n.to_be_bytes().iter().copied().skip_while(|x| *x == 0).collect();
+    if n >= 128 || b.is_empty() { b.insert(0, 0) }
+    let mut out = vec![0x80 | b.len() as u8];
+    out.extend(b);
+    out
+}
+
+/// Writes the TLV tree of `buf` again, the nodes named in `plan` in the given BER spelling.
+fn respell(buf: &[u8], node: &der::Node, path: &mut Vec<usize>, plan: &[(Vec<usize>, Sp)]) -> Vec<u8> {
+    let content: Vec<u8> = if node.constructed() {
+        let mut c = Vec::new();
+        for (i, ch) in node.children.iter().enumerate() { path.push(i); c.extend(respell(buf, ch, path, plan)); path.pop(); }
+        c
+    } else { node.content(buf).to_vec() };
+    let sp = plan.iter().find(|(p, _)| p == path).map(|(_, s)| *s);
+    let segments = |k: usize| -> Vec<u8> {
+        // X.690 8.6.4 / 8.7.3 / 8.23.6: segments are BIT STRING resp. OCTET STRING encodings
+        let (seg_tag, lead, body): (u8, Option<u8>, &[u8]) = if node.tag == der::T_BITSTR && !content.is_empty() {
+            (der::T_BITSTR, Some(content[0]), &content[1..]) } else { (der::T_OCTSTR, None, &content[..]) };
+        let mut out = Vec::new();
+        for i in 0..k {
+            let part = &body[body.len() * i / k..body.len() * (i + 1) / k];
+            let mut c = Vec::new();
+            if let Some(unused) = lead { c.push(if i + 1 == k { unused } else { 0 }) }
+            c.extend_from_slice(part);
+            out.extend(der::tlv(seg_tag, &c));
+        }
+        out
+    };
+    match sp {
+        None => der::tlv(node.tag, &content),
+        Some(Sp::Indef) => indefinite(node.tag, &content),
+        Some(Sp::LongLen) => [&[node.tag][..], &long_len(content.len()), &content].concat(),
+        Some(Sp::Seg2) => der::tlv(node.tag | 0x20, &segments(2)),
+        Some(Sp::Seg3) => der::tlv(node.tag | 0x20, &segments(3)),
+        Some(Sp::SegIndef) => indefinite(node.tag | 0x20, &segments(2)),
+    }
+}
+
+fn ber_spellings(ctx: &Ctx, fx: &Fixed) {
+    let sp = ctx.space("content.ber_spellings",
+        "BER spellings inside an otherwise valid eContent, read by ManifestContent::take_from in BER and DER mode: for lists of 1, 2 and 3 entries (with and without an explicit version 0), every TLV (content SEQUENCE, version [0] and its INTEGER, manifestNumber, thisUpdate, nextUpdate, fileHashAlg, fileList, every FileAndHash SEQUENCE, every name, every hash) in every spelling that applies (constructed: indefinite length, non-minimal long-form length; INTEGER/OID: non-minimal length; strings and times: non-minimal length, constructed in 2 and 3 segments, constructed with indefinite length) -- every single respelling and every pair of respellings of two different TLVs; all names and hashes are valid, so whatever is accepted must iterate, resolve and verify like the DER form; rejections are only counted; non-trivial = respelled encodings (all differ from DER)");
+    let names = ["a-b_C1.roa", "X0.cer", "third_3.crl"];
+    let mut jobs: Vec<(usize, bool)> = Vec::new();
+    for n in 1..=3usize { for ver in [false, true] { jobs.push((n, ver)) } }
+    let parts: Vec<Tally> = jobs.par_iter().map(|&(n, ver)| {
+        let mut t = Tally::default();
+        let mut c = Case::plain(names[..n].iter().map(|s| fx.good(s)).collect());
+        if ver { c.version = Some(0) }
+        let ec = c.econtent();
+        let root = der::parse_one(&ec, false).expect("own eContent parses");
+        let mut nodes = Vec::new();
+        root.walk(&mut Vec::new(), &mut nodes);
+        // role names for the witness
+        let k0 = if ver { 1 } else { 0 };
+        let role = |p: &[usize]| -> String {
+            match p {
+                [] => "content".into(),
+                [0] if ver => "version".into(), [0, 0] if ver => "version.INTEGER".into(),
+                [i] if *i == k0 => "manifestNumber".into(), [i] if *i == k0 + 1 => "thisUpdate".into(),
+                [i] if *i == k0 + 2 => "nextUpdate".into(), [i] if *i == k0 + 3 => "fileHashAlg".into(),
+                [_] => "fileList".into(), [_, e] => format!("entry[{e}]"),
+                [_, e, 0] => format!("name[{e}]"), [_, e, _] => format!("hash[{e}]"),
+                _ => format!("{p:?}"),
+            }
+        };
+        // all (node, spelling) choices
+        let mut choices: Vec<(Vec<usize>, Sp)> = Vec::new();
+        for (p, nd) in &nodes {
+            let sps: &[Sp] = if nd.constructed() { &[Sp::Indef, Sp::LongLen] }
+                else if [der::T_INT, der::T_OID].contains(&nd.tag) { &[Sp::LongLen] }
+                else { &[Sp::LongLen, Sp::Seg2, Sp::Seg3, Sp::SegIndef] };
+            for s in sps { choices.push((p.clone(), *s)) }
+        }
+        let mut plans: Vec<Vec<(Vec<usize>, Sp)>> = choices.iter().map(|ch| vec![ch.clone()]).collect();
+        for i in 0..choices.len() { for j in i + 1..choices.len() {
+            if choices[i].0 != choices[j].0 { plans.push(vec![choices[i].clone(), choices[j].clone()]) }
+        }}
+        for plan in &plans {
+            let bytes = Bytes::from(respell(&ec, &root, &mut Vec::new(), plan));
+            t.nontrivial += 1;
+            let label = plan.iter().map(|(p, s)| format!("{}:{}", role(p), s.show())).collect::<Vec<_>>().join("+");
+            for der_mode in [false, true] {
+                let mode = if der_mode { Mode::Der } else { Mode::Ber };
+                let how = format!("take_from/{} respelled[{label}]", if der_mode { "der" } else { "ber" });
+                let wit = || witness(&how, &c, &bytes);
+                let res = guard(|| mode.decode(bytes.clone(), ManifestContent::take_from).map_err(|_| ()));
+                let acc = judge_content(&mut t, fx, &c, der_mode, res, &wit, false);
+                if plan.len() == 1 {
+                    t.stat(match (der_mode, plan[0].1, acc) {
+                        (true, _, true) => "der_mode_accepts_a_respelling", (true, _, false) => "der_mode_rejects_respelling",
+                        (false, Sp::Indef, true) => "ber_accepts_indefinite_length", (false, Sp::Indef, false) => "ber_rejects_indefinite_length",
+                        (false, Sp::LongLen, true) => "ber_accepts_non_minimal_length", (false, Sp::LongLen, false) => "ber_rejects_non_minimal_length",
+                        (false, _, true) => "ber_accepts_constructed_string", (false, _, false) => "ber_rejects_constructed_string",
+                    });
+                }
+            }
+        }
+        t
+    }).collect();
+    let mut t = Tally::default();
+    for p in parts { t.absorb(p) }
+    t.flush(ctx, &sp);
+    sp.done(true, "6 lists x every single respelling and every pair of respellings of two different TLVs x 2 modes");
+}
+
+//------------ the number of entries ---------------------------------------------------------------
+
+fn entry_counts(ctx: &Ctx, fx: &Fixed, cms: &Cms) {
+    let mut counts: Vec<usize> = (0..=40).collect();
+    for k in [64usize, 128, 256, 1024, 4096] { counts.extend([k - 1, k, k + 1]) }
+    let quick_max = *counts.last().unwrap();
+    if ctx.tier.is_thorough() { for k in [16384usize, 65536, 1 << 18, 1 << 20] { counts.extend([k - 1, k, k + 1]) } }
+    let sp = ctx.space("entries.count", &format!(
+        "file lists of n distinct valid names for every n in 0..=40 and k-1, k, k+1 around 64, 128, 256, 1024, 4096 (quick), 16384, 65536, 2^18, 2^20 (thorough only): first, middle and last entry carry the SHA-256 of the data, all others a different hash each; DER and BER mode (n <= 65537 also through Manifest::decode): len(), is_empty(), iter(), iter_uris() on 3 bases, verify, accessors as for every accepted manifest; and the same lists with one bad name (.roa, a/b.roa) at the first, middle and last position (n <= {quick_max}; above: last only), which must not decode; non-trivial = lists with more than 3 entries"));
+    let list = |n: usize| -> Vec<MftEntry> {
+        (0..n).map(|i| {
+            let mut e = fx.good(&format!("f{i:07}.roa"));
+            if i != 0 && i != n / 2 && i + 1 != n { for (j, b) in (i as u32).to_be_bytes().iter().enumerate() { e.hash[j] ^= b } }
+            e
+        }).collect()
+    };
+    let run = |n: usize| -> Tally {
+        let mut t = Tally::default();
+        if n > 3 { t.nontrivial += 1 }
+        let c = Case::plain(list(n));
+        let ec = Bytes::from(c.econtent());
+        let acc = run_content(&mut t, fx, &c, &ec, true);
+        run_content(&mut t, fx, &c, &ec, false);
+        if n <= 65537 { run_cms(&mut t, fx, cms, &c, &ec, acc); }
+        if acc { t.stat("valid_lists_accepted") }
+        drop(c);
+        let positions: Vec<usize> = if n == 0 { vec![] } else if n <= quick_max { vec![0, n / 2, n - 1] } else { vec![n - 1] };
+        let mut seen = std::collections::BTreeSet::new();
+        for p in positions {
+            if !seen.insert(p) { continue }
+            for bad in [&b".roa"[..], b"a/b.roa"] {
+                if n > quick_max && bad != b".roa" { continue }
+                let mut e = list(n);
+                e[p].name = bad.to_vec();
+                run_both(&mut t, fx, &Case::plain(e));
+            }
+        }
+        t
+    };
+    let (small, large): (Vec<usize>, Vec<usize>) = counts.iter().partition(|n| **n <= 65537);
+    let mut t = Tally::default();
+    for p in small.par_iter().map(|&n| run(n)).collect::<Vec<_>>() { t.absorb(p) }
+    // the largest lists one after the other (memory)
+    for n in large { t.absorb(run(n)) }
+    t.flush(ctx, &sp);
+    sp.set("counts", serde_json::json!(counts));
+    sp.done(true, &format!("{} list sizes up to {}", counts.len(), counts.last().unwrap()));
+}
+
 fn time_domain() -> Vec<TimeEnc> {
     let base = civ(2023, 11, 14, 22, 13, 20);
     let mut civs = vec![base];
@@ -1290,6 +1465,8 @@ fn main() {
     timed("names.length", &|| names_length(&ctx, &fx, &cms));
     timed("econtent.fragments", &|| econtent_fragments(&ctx, &fx, &cms));
     timed("source.pieces", &|| source_pieces(&ctx, &fx));
+    timed("content.ber_spellings", &|| ber_spellings(&ctx, &fx));
+    timed("entries.count", &|| entry_counts(&ctx, &fx, &cms));
     timed("hash.bitstring", &|| hash_bitstring(&ctx, &fx, &cms));
     timed("times", &|| times(&ctx, &fx, &cms));
     timed("header.len", &|| header_len(&ctx, &fx, &cms));
